@@ -65,3 +65,19 @@ M("c14-cancellable-alias-dropped", "C14", TT, "run_sync", "        abandon_on_ca
 
 # from seeded change C14/f (round 3)
 M("c14-root-task-cleanup-drops-all-run-vars", "C14", A, "find_root_task", "                        if vars := _run_vars.get(t.get_loop()):\n                            vars.pop(_root_task, None)", "                        _run_vars.pop(t.get_loop(), None)", ["R14-i"])
+
+# from seeded change C14/k (round 6)
+M("c14-stop-leaves-worker-idle", "C14", A, "WorkerThread.stop",
+  "        try:\n            self.idle_workers.remove(self)\n        except ValueError:\n            pass\n", "", ["R14-j"])
+M("c14-stop-removes-only-first-time", "C14", A, "WorkerThread.stop",
+  "        try:\n            self.idle_workers.remove(self)\n        except ValueError:\n            pass\n",
+  "        if f is None:\n            try:\n                self.idle_workers.remove(self)\n            except ValueError:\n                pass\n", ["R14-j"])
+N("c14-n-stop-membership-test", "C14", A, "WorkerThread.stop",
+  "        try:\n            self.idle_workers.remove(self)\n        except ValueError:\n            pass\n",
+  "        if self in self.idle_workers:\n            self.idle_workers.remove(self)\n")
+N("c14-n-stop-suppress", "C14", A, "WorkerThread.stop",
+  "        try:\n            self.idle_workers.remove(self)\n        except ValueError:\n            pass\n",
+  "        with suppress(ValueError):\n            self.idle_workers.remove(self)\n")
+N("c14-n-stop-remove-first", "C14", A, "WorkerThread.stop",
+  "        self.stopping = True\n        self.queue.put_nowait(None)\n        self.workers.discard(self)\n        try:\n            self.idle_workers.remove(self)\n        except ValueError:\n            pass\n",
+  "        self.stopping = True\n        try:\n            self.idle_workers.remove(self)\n        except ValueError:\n            pass\n        self.workers.discard(self)\n        self.queue.put_nowait(None)\n")
